@@ -4,6 +4,38 @@ use serde_json::{json, Value};
 use std::path::{Path, PathBuf};
 use std::time::{Duration, Instant};
 
+extern "C" {
+    fn dup(fd: i32) -> i32;
+    fn dup2(oldfd: i32, newfd: i32) -> i32;
+}
+static OUT: std::sync::OnceLock<std::sync::Mutex<std::fs::File>> = std::sync::OnceLock::new();
+
+/// Some dependency code prints to stdout off-chain (e.g. `Pubkey::log`).  The driver keeps the real stdout for its
+/// own report lines and points fd 1 at /dev/null for everything else.
+pub fn capture_stdout() {
+    use std::os::fd::{AsRawFd, FromRawFd};
+    OUT.get_or_init(|| unsafe {
+        let real = dup(1);
+        let null = std::fs::OpenOptions::new().write(true).open("/dev/null").expect("/dev/null");
+        dup2(null.as_raw_fd(), 1);
+        std::sync::Mutex::new(std::fs::File::from_raw_fd(real))
+    });
+}
+pub fn out(line: &str) {
+    use std::io::Write;
+    match OUT.get() {
+        Some(f) => {
+            let mut f = f.lock().unwrap();
+            let _ = writeln!(f, "{line}");
+            let _ = f.flush();
+        }
+        None => println!("{line}"),
+    }
+}
+macro_rules! outln {
+    ($($a:tt)*) => { crate::driver::out(&format!($($a)*)) };
+}
+
 pub fn verif_root() -> PathBuf {
     std::env::var("VERIF_ROOT").map(PathBuf::from).unwrap_or_else(|_| PathBuf::from("/verif"))
 }
@@ -69,6 +101,7 @@ fn replay_file(def: &CheckDef, path: &Path) -> Result<(), String> {
 }
 
 pub fn run_check(ctx: &Ctx, replay: Option<&str>, only: Option<&str>) -> i32 {
+    capture_stdout();
     crate::rt::install();
     let Some(def) = crate::checks::all().into_iter().find(|d| d.id == ctx.id) else {
         eprintln!("unknown property id {}", ctx.id);
@@ -77,12 +110,12 @@ pub fn run_check(ctx: &Ctx, replay: Option<&str>, only: Option<&str>) -> i32 {
     if let Some(path) = replay {
         return match replay_file(&def, Path::new(path)) {
             Ok(()) => {
-                println!("replay {path}: property {} holds on this case", def.id);
+                outln!("replay {path}: property {} holds on this case", def.id);
                 0
             }
             Err(m) => {
-                println!("replay {path}: {m}");
-                println!("VIOLATION property={} replay={}", def.id, path);
+                outln!("replay {path}: {m}");
+                outln!("VIOLATION property={} replay={}", def.id, path);
                 1
             }
         };
@@ -96,7 +129,7 @@ pub fn run_check(ctx: &Ctx, replay: Option<&str>, only: Option<&str>) -> i32 {
         let id = def.id.to_string();
         std::thread::spawn(move || {
             std::thread::sleep(Duration::from_secs(limit));
-            println!("INCONCLUSIVE property={id}: watchdog after {limit}s");
+            outln!("INCONCLUSIVE property={id}: watchdog after {limit}s");
             std::process::exit(2);
         });
     }
@@ -112,7 +145,7 @@ pub fn run_check(ctx: &Ctx, replay: Option<&str>, only: Option<&str>) -> i32 {
         for f in files {
             replayed += 1;
             if let Err(m) = replay_file(&def, &f) {
-                println!("regression case {} fails: {m}", f.display());
+                outln!("regression case {} fails: {m}", f.display());
                 violation.get_or_insert(f);
             }
         }
@@ -139,7 +172,7 @@ pub fn run_check(ctx: &Ctx, replay: Option<&str>, only: Option<&str>) -> i32 {
             let failed = r.failure.clone();
             results.push(r);
             if let Some(f) = failed {
-                println!("violation in {}/{}: {}", def.id, f.sub, f.message);
+                outln!("violation in {}/{}: {}", def.id, f.sub, f.message);
                 violation = Some(write_replay(def.id, &f));
                 break;
             }
@@ -151,7 +184,7 @@ pub fn run_check(ctx: &Ctx, replay: Option<&str>, only: Option<&str>) -> i32 {
         if k.property == def.id && k.status == "known" {
             let hits: u64 = results.iter().map(|r| r.known.get(&k.signature).copied().unwrap_or(0)).sum();
             let line = format!("KNOWN-FINDING: property={} {} [{}] (seen {} times in this run)", def.id, k.what, k.signature, hits);
-            println!("{line}");
+            outln!("{line}");
             known_lines.push(line);
         }
     }
@@ -169,11 +202,11 @@ pub fn run_check(ctx: &Ctx, replay: Option<&str>, only: Option<&str>) -> i32 {
     }
     match violation {
         Some(p) => {
-            println!("VIOLATION property={} replay={}", def.id, p.display());
+            outln!("VIOLATION property={} replay={}", def.id, p.display());
             1
         }
         None => {
-            println!(
+            outln!(
                 "OK property={} tier={:?} seed={} evaluations={} distinct_nontrivial={} wall={:.1}s",
                 def.id, ctx.tier, ctx.seed, ev["coverage"]["evaluations"], ev["coverage"]["distinct_nontrivial"], wall
             );
